@@ -12,10 +12,9 @@ func verifRoundTrip(ps *ProvingSystem, ps2 *ProvingSystem, buf *bytes.Buffer) er
 	if _, err := ps.WriteTo(buf); err != nil {
 		return err
 	}
-	if _, err := ps2.UnsafeReadFrom(buf); err != nil {
-		return err
-	}
-	return nil
+	// one return for both outcomes of the read: the contract says that the read cannot fail here
+	_, err := ps2.UnsafeReadFrom(buf)
+	return err
 }
 
 // verifRoundTripRaw does the same through the raw format.
@@ -23,8 +22,6 @@ func verifRoundTripRaw(ps *ProvingSystem, ps2 *ProvingSystem, buf *bytes.Buffer)
 	if _, err := ps.WriteRawTo(buf); err != nil {
 		return err
 	}
-	if _, err := ps2.UnsafeReadFrom(buf); err != nil {
-		return err
-	}
-	return nil
+	_, err := ps2.UnsafeReadFrom(buf)
+	return err
 }
